@@ -26,6 +26,8 @@ type loopRec struct {
 	HasDec   bool
 	Ordinal  int
 	Spec     bool // speculative write-set discovery pass
+	Unroll   int
+	Count    int
 }
 
 func (f *Frame) clone() *Frame {
@@ -467,7 +469,15 @@ func (ex *Exec) scalar(st *State, v Val) string {
 				ex.assumeDyn(st, r, v.Dyn)
 				return r
 			}
+			// boxed non-pointer value (e.g. a string passed as ...any): contents not modelled
+			r := ex.Ctx.Fresh("boxed", "Ref")
+			st.Assume(smt.Neq(r, NilRef))
+			return r
 		}
+	case Err:
+		r := ex.Ctx.Fresh("boxederr", "Ref")
+		st.Assume(smt.Eq(smt.Eq(r, NilRef), v.Nil))
+		return r
 	}
 	return term(v)
 }
@@ -684,6 +694,9 @@ func mapVal(c Val, fix func(Val) (Val, bool)) Val {
 // ---------------------------------------------------------------- globals
 
 func (ex *Exec) loadGlobal(st *State, p Ptr, t types.Type) Val {
+	if ft, ok := ex.FuncTables[p.Glob]; ok && len(p.Path) == 0 {
+		return ft
+	}
 	if tb, ok := ex.Tables[p.Glob]; ok && len(p.Path) == 0 {
 		if t, isT := tb.(*Table); isT {
 			if _, isMap := t.Typ.Underlying().(*types.Map); !isMap {
